@@ -1,6 +1,7 @@
 package main
 
 import (
+	"bytes"
 	"fmt"
 	"runtime"
 	"strings"
@@ -125,6 +126,15 @@ func genStream(r *Rng, prop, phase string, knob bool, pEarly, pErr float64) []*S
 	s.Reader = rs
 	if knob {
 		s.Knobs = map[string]int{"chunkSize": chunkKnobs[r.Intn(len(chunkKnobs))]}
+		if r.Chance(0.3) {
+			// a block-size limit that the whole (NUL-padded) document just fits
+			// under: the arithmetic that decides how much may still be read is
+			// exercised at its boundary, where with the real constant (1 MiB) no
+			// workload document ever gets.  Everything below the limit must
+			// still parse exactly like Parse.
+			padded := len(doc) + 2*bytes.Count(doc, []byte{0})
+			s.Knobs["maxBlockSize"] = padded + r.Range(3, 48)
+		}
 	}
 	return []*Scenario{s}
 }
